@@ -306,7 +306,7 @@ def indexWith (arms : List Arm) (v : Nat) : R Nat :=
   | some (.elem _ idx sub) =>
     if sub ≤ v ∧ v - sub < fieldLen idx then (R.ofOption (fieldOffset idx)).map (· + (v - sub) * entrySize)
     else .panic
-  | some (.panic _) => .panic
+  | some (.panic _ _) => .panic
   | none => .panic
 
 /-- `Index<u8>::index`. -/
@@ -314,11 +314,11 @@ def index (v : Nat) : R Nat := indexWith Generated.Idt.indexArms v
 /-- `IndexMut<u8>::index_mut`. -/
 def indexMut (v : Nat) : R Nat := indexWith Generated.Idt.indexMutArms v
 
-/-- The reason stated by the panic message of a refusing arm, if it is one of the three known wordings. -/
-def refusalOfMsg (msg : String) : Option Spec.Refusal :=
-  if (msg.splitOn "reserved").length > 1 then some .reserved
-  else if (msg.splitOn "error code").length > 1 then some .errorCode
-  else if (msg.splitOn "diverging").length > 1 then some .diverging
+/-- The reason stated by the panic message of a refusing arm (the translator looks for the three wordings). -/
+def refusalOfReason (reason : String) : Option Spec.Refusal :=
+  if reason == "reserved" then some .reserved
+  else if reason == "error code" then some .errorCode
+  else if reason == "diverging" then some .diverging
   else none
 
 def boundIdx (c : Nat × Nat × Nat) : Spec.Bound → Nat
@@ -335,16 +335,15 @@ def conditionSliceBounds (lo hi : Spec.Bound) : R (Nat × Nat) :=
 /-- `&self.<f>[(lower_idx - a)..(upper_idx - b)]`: `usize` subtractions (panic/wrap by build profile),
 then slice indexing (panics unless `start ≤ end ≤ len`). Result: (byte offset of the first element —
 also for an empty slice —, number of elements). -/
+def sliceRange (cfg : Cfg) (body : String × Nat × Nat × Nat) (lower upper : Nat) : R (Nat × Nat) :=
+  (subU64 cfg lower body.2.2.1).bind fun s =>
+  (subU64 cfg upper body.2.2.2).bind fun e =>
+    if s ≤ e ∧ e ≤ fieldLen body.2.1 then
+      (R.ofOption (fieldOffset body.2.1)).map (fun off => (off + s * entrySize, e - s))
+    else .panic
+
 def sliceWith (body : String × Nat × Nat × Nat) (cfg : Cfg) (lo hi : Spec.Bound) : R (Nat × Nat) :=
-  match conditionSliceBounds lo hi with
-  | .panic => .panic
-  | .ok (lower, upper) =>
-    match subU64 cfg lower body.2.2.1, subU64 cfg upper body.2.2.2 with
-    | .ok s, .ok e =>
-      if s ≤ e ∧ e ≤ fieldLen body.2.1 then
-        (R.ofOption (fieldOffset body.2.1)).map (fun off => (off + s * entrySize, e - s))
-      else .panic
-    | _, _ => .panic
+  (conditionSliceBounds lo hi).bind fun lu => sliceRange cfg body lu.1 lu.2
 
 /-- `slice(bounds)` and every `Index<R>` for a range type `R` (which call it). -/
 def slice (cfg : Cfg) (lo hi : Spec.Bound) : R (Nat × Nat) := sliceWith Generated.Idt.sliceBody cfg lo hi
